@@ -18,6 +18,8 @@ CLAIMED['C06'] = dict(text='Coq theorems (unbounded): Axis.union label set = set
              note='That the n-ary fold _common_axis is the n-ary union, the direction clause for the concatenate branch, sort=True and Dataset inputs are validated by correspondence + oracle; inputs-unchanged is checked by operand snapshots (functional model).', tech='Coq proof + generated cast-kind table + vm_compute correspondence', ref='3.6')
 CLAIMED['C04'] = dict(text='Coq theorems (unbounded): operation() = NumPy-broadcast elementwise op on the operands after label alignment (C06/C07 theorems) and by-name dimension alignment (reshape to the union of dims); result dims = first operand dims then the new ones; no metadata; exact rational arithmetic where both operands define a coordinate, NaN elsewhere for + - * / //; for ** the full statement is refuted on the faithful model (C04_pow_refuted, NumPy 1**nan = nan**0 = 1) and proved in its partial form; scalar operand in either order = op on values with axes unchanged.',
              note='Open known finding F6 (pow identity) is listed in KNOWN_FINDINGS.txt and reported as KNOWN-FINDING. Arithmetic is over exact rationals (generators produce dyadic data; power with integer exponents); ndarray right operand and reflected operators validated by correspondence.', tech='Coq proof (refinement to align + elementwise op) + vm_compute correspondence', ref='3.4')
+CLAIMED['C12'] = dict(text='Coq theorems (unbounded): stack succeeds only when every input, after optional alignment and reordering BY NAME to the first input\'s dimension order, carries the first input\'s labels on every axis; the result\'s first axis is the new one labelled by keys and the slice at key b is exactly arrays[b]; without align differing secondary axes give ValueError; concatenate: labels along the axis concatenated in input order, other axes the first input\'s, the cell at position p comes from the input that owns p (locate_block proved correct), secondary-axis check is a precondition of success.',
+             note='align=True variants rest on the C06 theorems for the align step (composition validated by correspondence); np.array([...]) / np.concatenate modelled by specification.', tech='Coq proof + vm_compute correspondence', ref='3.12')
 NOT_YET = {}
 ALL = ['C%02d' % i for i in range(1, 21)]
 def main():
